@@ -1,346 +1,304 @@
-import Aiorpcx.C08.Model
-/-! Invariants of the C08 lifecycle model, in three independent groups (flags + handlers,
-tickets, closers), each in a strong form (holds at quiescence) and a weak form (holds in the
-middle of a clock tick, when `now` has already moved but the timers due have not fired yet). -/
+import Aiorpcx.C08.Basic
+/-! Invariants of the C08 lifecycle model (code with repair F25), in four groups over explicit
+parameters (flags + handlers, outgoing requests, tasks inside `close()`, the ghost record of the
+loss), and their preservation by the building blocks of the step function. -/
 namespace Aiorpcx.C08
 
-/-! ## element-level facts -/
+/-- flags and handlers -/
+structure HI (now : Nat) (down closing lost ce : Bool) (hook pt : Nat) (hs : List Handler) : Prop where
+  ptPos : 0 < pt
+  hook : hook = if down then 1 else 0
+  lostDown : lost = true → down = true
+  lostClosing : lost = true → closing = true
+  closedThen : ce = true → lost = true ∧ ∀ h ∈ hs, h.status = .done
+  ok : ∀ h ∈ hs, HOk now down closing h
 
-theorem isDone_iff (h : Handler) : h.isDone = true ↔ h.status = .done := by
-  simp [Handler.isDone]
+/-- `_closed_event` is set as soon as message processing is torn down and every handler is done -/
+def Settled (down ce : Bool) (hs : List Handler) : Prop :=
+  down = true → (∀ h ∈ hs, h.status = .done) → ce = true
 
-theorem cancelHandler_id (n : Nat) (h : Handler) : (cancelHandler n h).id = h.id := by
-  unfold cancelHandler; split
-  · split <;> rfl
+/-- outgoing requests -/
+structure TI (now : Nat) (down : Bool) (rt : Nat) (ts : List Ticket) : Prop where
+  pos : 0 < rt
+  ok : ∀ t ∈ ts, TOk now down t
+
+/-- tasks inside `close()` -/
+structure CI (now : Nat) (closing ce : Bool) (ca la : Option Nat) (cs : List Closer) : Prop where
+  ok : ∀ c ∈ cs, COk now ce ca la c
+  closersClosing : cs ≠ [] → closing = true
+  caNone : ca = none → ce = false
+  caSome : ∀ T, ca = some T → ce = true ∧ T ≤ now ∧ ∃ t, la = some t ∧ t ≤ T
+
+/-- the ghost record of the loss -/
+structure LI (now : Nat) (lost stalled : Bool) (la : Option Nat) (lb : Option Cause)
+    (aa : Option Nat) : Prop where
+  laNone : la = none → lost = false
+  laSome : ∀ t, la = some t → lost = true ∧ t ≤ now
+  lbNone : lb = none → lost = false
+  lbSome : ∀ w, lb = some w → lost = true
+  aborted : ∀ a, aa = some a → la = some a ∧ lb = some .abort
+  byAbort : lb = some .abort → aa = la
+  byGraceful : lb = some .graceful → stalled = false
+
+/-- everything but `Settled` (holds also just before `settle` runs) -/
+structure Inv0 (s : S) : Prop where
+  fixed : s.fixed = true
+  h : HI s.now s.down s.closing s.lost s.closedEvent s.hookRuns s.procTimeout s.handlers
+  t : TI s.now s.down s.reqTimeout s.tickets
+  c : CI s.now s.closing s.closedEvent s.closedAt s.lostAt s.closers
+  l : LI s.now s.lost s.stalled s.lostAt s.lostBy s.abortedAt
+
+structure Inv (s : S) : Prop extends Inv0 s where
+  settled : Settled s.down s.closedEvent s.handlers
+
+/-! ## small consequences -/
+
+theorem HI.closing_mono {now : Nat} {down closing closing' lost ce : Bool} {hook pt : Nat}
+    {hs : List Handler}
+    (h : HI now down closing lost ce hook pt hs) (hc : closing = true → closing' = true) :
+    HI now down closing' lost ce hook pt hs :=
+  ⟨h.ptPos, h.hook, h.lostDown, fun x => hc (h.lostClosing x), h.closedThen,
+   forall_imp h.ok fun _ hk => hk.closing_mono hc⟩
+
+theorem HI.ce_false {now : Nat} {down closing lost ce : Bool} {hook pt : Nat} {hs : List Handler}
+    (h : HI now down closing lost ce hook pt hs) (hl : lost = false) : ce = false := by
+  cases hce : ce
   · rfl
+  · have := (h.closedThen hce).1; simp [hl] at this
 
-theorem cancelHandler_kind (n : Nat) (h : Handler) : (cancelHandler n h).kind = h.kind := by
-  unfold cancelHandler; split
-  · split <;> rfl
+theorem HI.not_lost_of_not_closing {now : Nat} {down closing lost ce : Bool} {hook pt : Nat}
+    {hs : List Handler}
+    (h : HI now down closing lost ce hook pt hs) (hc : closing = false) : lost = false := by
+  cases hl : lost
   · rfl
+  · have := h.lostClosing hl; simp [hc] at this
 
-theorem cancelHandler_not_run (n : Nat) (h : Handler) : (cancelHandler n h).status ≠ .run := by
-  unfold cancelHandler
-  split
-  · split <;> simp
-  · assumption
-
-theorem cancelHandler_reacting (n : Nat) (h : Handler) (u : Nat)
-    (hu : (cancelHandler n h).status = .reacting u) :
-    h.status = .reacting u ∨ (h.status = .run ∧ n < u) := by
-  unfold cancelHandler at hu
-  split at hu
-  · split at hu
-    · simp at hu; right; exact ⟨by assumption, by omega⟩
-    · simp at hu
-  · left; exact hu
-
-theorem cancelHandler_done (n : Nat) (h : Handler) (hd : h.status = .done) :
-    (cancelHandler n h).status = .done := by
-  unfold cancelHandler; simp [hd]
-
-theorem finishReaction_kind (n : Nat) (h : Handler) : (finishReaction n h).kind = h.kind := by
-  unfold finishReaction; split
-  · split <;> rfl
+theorem HI.not_lost_of_not_down {now : Nat} {down closing lost ce : Bool} {hook pt : Nat}
+    {hs : List Handler}
+    (h : HI now down closing lost ce hook pt hs) (hc : down = false) : lost = false := by
+  cases hl : lost
   · rfl
+  · have := h.lostDown hl; simp [hc] at this
 
-theorem finishReaction_run (n : Nat) (h : Handler) :
-    (finishReaction n h).status = .run ↔ h.status = .run := by
-  unfold finishReaction
-  split
-  · split <;> simp_all
-  · rfl
+theorem COk.la_mono {n : Nat} {ce : Bool} {ca la la' : Option Nat} {c : Closer}
+    (hk : COk n ce ca la c) (hm : ∀ t, la = some t → la' = some t) : COk n ce ca la' c := by
+  unfold COk at *
+  refine ⟨hk.1, ?_⟩
+  cases hs : c.st with
+  | waiting => simpa [hs] using hk.2
+  | abortedWaiting =>
+    simp only [hs] at hk ⊢
+    obtain ⟨_, h1, h2, t, ht, h3⟩ := hk
+    exact ⟨h1, h2, t, hm t ht, h3⟩
+  | returned a =>
+    simp only [hs] at hk ⊢
+    obtain ⟨_, T, hT, h2, t, ht, h3⟩ := hk
+    exact ⟨T, hT, h2, t, hm t ht, h3⟩
+  | cancelled a => simpa [hs] using hk.2
 
-theorem finishReaction_reacting (n : Nat) (h : Handler) (u : Nat)
-    (hu : (finishReaction n h).status = .reacting u) : h.status = .reacting u ∧ u ≠ n := by
-  unfold finishReaction at hu
-  split at hu
-  · split at hu
-    · simp at hu
-    · rename_i u' hs hne
-      rw [hs] at hu; injection hu with hu; subst hu
-      exact ⟨hs, by simpa using hne⟩
-  · rename_i hs; exact absurd hu (hs u)
+theorem LI.aa_none {now : Nat} {lost stalled : Bool} {la : Option Nat} {lb : Option Cause}
+    {aa : Option Nat} (l : LI now lost stalled la lb aa) (hl : lost = false) : aa = none := by
+  cases ha : aa with
+  | none => rfl
+  | some a =>
+    have := (l.laSome a (l.aborted a ha).1).1
+    simp [hl] at this
 
-theorem finishReaction_done (n : Nat) (h : Handler) (hd : h.status = .done) :
-    (finishReaction n h).status = .done := by
-  unfold finishReaction; simp [hd]
+theorem LI.la_none {now : Nat} {lost stalled : Bool} {la : Option Nat} {lb : Option Cause}
+    {aa : Option Nat} (l : LI now lost stalled la lb aa) (hl : lost = false) : la = none := by
+  cases ha : la with
+  | none => rfl
+  | some a => have := (l.laSome a ha).1; simp [hl] at this
 
-theorem finishHandler_kind (i : Nat) (h : Handler) : (finishHandler i h).kind = h.kind := by
-  unfold finishHandler; split <;> rfl
+theorem LI.la_some {now : Nat} {lost stalled : Bool} {la : Option Nat} {lb : Option Cause}
+    {aa : Option Nat} (l : LI now lost stalled la lb aa) (hl : lost = true) :
+    ∃ t, la = some t ∧ t ≤ now := by
+  cases ha : la with
+  | none => have := l.laNone ha; simp [hl] at this
+  | some a => exact ⟨a, rfl, (l.laSome a ha).2⟩
 
-theorem finishHandler_status (i : Nat) (h : Handler) :
-    (finishHandler i h).status = h.status ∨
-      ((finishHandler i h).status = .done ∧ h.status = .run ∧ h.kind.finishable = true) := by
-  unfold finishHandler
-  split
-  · right; simp_all
-  · left; rfl
+/-- the record of a loss that happens now -/
+theorem LI.lose {now : Nat} {stalled : Bool} {la : Option Nat} {lb : Option Cause}
+    {aa aa' : Option Nat} {why : Cause} (_l : LI now false stalled la lb aa)
+    (hw : why = .graceful → stalled = false)
+    (ha : (why = .abort ∧ aa' = some now) ∨ (why ≠ .abort ∧ aa' = none)) :
+    LI now true stalled (some now) (some why) aa' := by
+  refine ⟨by simp, ?_, by simp, by simp, ?_, ?_, ?_⟩
+  · intro t ht; simp at ht; subst ht; exact ⟨rfl, Nat.le_refl _⟩
+  · intro a h
+    rcases ha with ⟨h1, h2⟩ | ⟨_, h2⟩
+    · rw [h2] at h; cases h; exact ⟨rfl, by rw [h1]⟩
+    · rw [h2] at h; cases h
+  · intro h
+    rcases ha with ⟨_, h2⟩ | ⟨h1, _⟩
+    · exact h2
+    · simp at h; exact absurd h h1
+  · intro h; simp at h; exact hw h
 
-/-! ## group 1: flags and handlers -/
+/-! ## `settle` -/
 
-/-- weak form: timers may be due *now* -/
-structure HW (s : S) : Prop where
-  hook : s.hookRuns = if s.lost then 1 else 0
-  lostClosing : s.lost = true → s.closing = true
-  loop : s.loopAlive = !s.lost
-  closedThen : s.closedEvent = true → s.lost = true ∧ ∀ h ∈ s.handlers, h.status = .done
-  noRun : s.lost = true → ∀ h ∈ s.handlers, h.status ≠ .run
-  react : ∀ h ∈ s.handlers, ∀ u, h.status = .reacting u → s.now ≤ u ∧ s.lost = true
-  closerH : ∀ h ∈ s.handlers, ∀ d, h.kind = .closer d → h.status = .run →
-    s.now ≤ d ∧ s.closing = true
-
-/-- strong form (at quiescence): no timer is due, and `_closed_event` is set as soon as the
-connection is lost and every handler is done -/
-structure HInv (s : S) : Prop extends HW s where
-  reactLt : ∀ h ∈ s.handlers, ∀ u, h.status = .reacting u → s.now < u
-  closerLt : ∀ h ∈ s.handlers, ∀ d, h.kind = .closer d → h.status = .run → s.now < d
-  closedIf : s.lost = true → (∀ h ∈ s.handlers, h.status = .done) → s.closedEvent = true
-
-theorem all_isDone (hs : List Handler) : hs.all Handler.isDone = true ↔ ∀ h ∈ hs, h.status = .done := by
-  simp [List.all_eq_true, isDone_iff]
-
-/-- `settle` keeps the weak invariant and establishes `closedIf` -/
-theorem settle_hw {s : S} (h : HW s) : HW s.settle ∧
-    (s.settle.lost = true → (∀ x ∈ s.settle.handlers, x.status = .done) → s.settle.closedEvent = true) := by
+theorem settle_inv {s : S} (i : Inv0 s) : Inv s.settle := by
   unfold S.settle
   split
   · rename_i hc
     simp only [Bool.and_eq_true, Bool.not_eq_true', all_isDone] at hc
-    refine ⟨⟨h.hook, h.lostClosing, h.loop, fun _ => ⟨hc.1.1, hc.2⟩, h.noRun, h.react, h.closerH⟩, ?_⟩
-    intro _ _; rfl
+    obtain ⟨⟨hdn, hce⟩, hall⟩ := hc
+    have hca : s.closedAt = none := by
+      cases h : s.closedAt with
+      | none => rfl
+      | some T => have := (i.c.caSome T h).1; simp [hce] at this
+    split
+    · rename_i hl
+      simp only [i.fixed, Bool.true_and, Bool.not_eq_true'] at hl
+      have hla := i.l.la_none hl
+      refine { fixed := i.fixed, h := ?_, t := i.t, c := ?_, l := ?_, settled := fun _ _ => rfl }
+      · exact ⟨i.h.ptPos, i.h.hook, fun _ => hdn, fun _ => rfl, fun _ => ⟨rfl, hall⟩,
+               forall_imp i.h.ok fun _ hk => hk.closing_mono (fun _ => rfl)⟩
+      · refine ⟨?_, fun _ => rfl, by simp, ?_⟩
+        · show ∀ c ∈ s.closers.map (returnCloser s.now), COk s.now true (some s.now) (some s.now) c
+          refine forall_map i.c.ok ?_
+          intro c hk
+          rw [hce, hca] at hk
+          exact returnCloser_ok (hk.la_mono (by rw [hla]; intro t h; cases h)) ⟨_, rfl, Nat.le_refl _⟩
+        · show ∀ T, some s.now = some T → true = true ∧ T ≤ s.now ∧ ∃ t, some s.now = some t ∧ t ≤ T
+          intro T hT; simp at hT; subst hT
+          exact ⟨rfl, Nat.le_refl _, _, rfl, Nat.le_refl _⟩
+      · have l0 := i.l
+        rw [hl] at l0
+        exact l0.lose (by simp) (Or.inl ⟨rfl, rfl⟩)
+    · rename_i hl
+      have hl : s.lost = true := by simpa [i.fixed] using hl
+      obtain ⟨t, ht, htn⟩ := i.l.la_some hl
+      refine { fixed := i.fixed, h := ?_, t := i.t, c := ?_, l := i.l, settled := fun _ _ => rfl }
+      · exact ⟨i.h.ptPos, i.h.hook, i.h.lostDown, i.h.lostClosing, fun _ => ⟨hl, hall⟩, i.h.ok⟩
+      · refine ⟨?_, ?_, by simp, ?_⟩
+        · show ∀ c ∈ s.closers.map (returnCloser s.now), COk s.now true (some s.now) s.lostAt c
+          refine forall_map i.c.ok ?_
+          intro c hk
+          rw [hce, hca] at hk
+          exact returnCloser_ok hk ⟨t, ht, htn⟩
+        · show s.closers.map (returnCloser s.now) ≠ [] → s.closing = true
+          intro hne; exact i.c.closersClosing (by simpa using hne)
+        · show ∀ T, some s.now = some T → true = true ∧ T ≤ s.now ∧ ∃ t, s.lostAt = some t ∧ t ≤ T
+          intro T hT; simp at hT; subst hT
+          exact ⟨rfl, Nat.le_refl _, t, ht, htn⟩
   · rename_i hc
-    refine ⟨h, ?_⟩
-    intro hl hd
+    refine { toInv0 := i, settled := ?_ }
+    intro hdn hall
     simp only [Bool.and_eq_true, Bool.not_eq_true', all_isDone, not_and] at hc
     cases hce : s.closedEvent
-    · exact absurd hd (hc ⟨hl, hce⟩)
+    · exact absurd hall (hc ⟨hdn, hce⟩)
     · rfl
 
-@[simp] theorem settle_now (s : S) : s.settle.now = s.now := by unfold S.settle; split <;> rfl
-@[simp] theorem settle_handlers (s : S) : s.settle.handlers = s.handlers := by
-  unfold S.settle; split <;> rfl
-@[simp] theorem settle_lost (s : S) : s.settle.lost = s.lost := by unfold S.settle; split <;> rfl
-@[simp] theorem settle_closing (s : S) : s.settle.closing = s.closing := by
-  unfold S.settle; split <;> rfl
-@[simp] theorem settle_tickets (s : S) : s.settle.tickets = s.tickets := by
-  unfold S.settle; split <;> rfl
-@[simp] theorem settle_aborts (s : S) : s.settle.aborts = s.aborts := by
-  unfold S.settle; split <;> rfl
-@[simp] theorem settle_hookRuns (s : S) : s.settle.hookRuns = s.hookRuns := by
-  unfold S.settle; split <;> rfl
-@[simp] theorem settle_reqTimeout (s : S) : s.settle.reqTimeout = s.reqTimeout := by
-  unfold S.settle; split <;> rfl
-@[simp] theorem settle_stalled (s : S) : s.settle.stalled = s.stalled := by
-  unfold S.settle; split <;> rfl
-@[simp] theorem settle_loopAlive (s : S) : s.settle.loopAlive = s.loopAlive := by
-  unfold S.settle; split <;> rfl
-
-/-- from the weak invariant + "no timer due now", `settle` gives the strong one -/
-theorem settle_hinv {s : S} (h : HW s)
-    (hr : ∀ x ∈ s.handlers, ∀ u, x.status = .reacting u → s.now < u)
-    (hc : ∀ x ∈ s.handlers, ∀ d, x.kind = .closer d → x.status = .run → s.now < d) :
-    HInv s.settle :=
-  { toHW := (settle_hw h).1
-    reactLt := by simpa using hr
-    closerLt := by simpa using hc
-    closedIf := (settle_hw h).2 }
-
-theorem HInv.resettle {s : S} (h : HInv s) : s.settle = s := by
+theorem Inv.resettle {s : S} (i : Inv s) : s.settle = s := by
   unfold S.settle
   split
   · rename_i hc
     simp only [Bool.and_eq_true, Bool.not_eq_true', all_isDone] at hc
-    have := h.closedIf hc.1.1 hc.2
+    have := i.settled hc.1.1 hc.2
     simp [hc.1.2] at this
   · rfl
 
-/-- the teardown from a state that is not lost yet -/
-theorem teardown_hw {s : S} (h : HW s) (hl : s.lost = false) : HW s.teardown ∧
-    (∀ x ∈ s.teardown.handlers, ∀ u, x.status = .reacting u → s.teardown.now < u) ∧
-    (∀ x ∈ s.teardown.handlers, x.status ≠ .run) := by
-  have hce : s.closedEvent = false := by
-    cases hc : s.closedEvent
-    · rfl
-    · have := (h.closedThen hc).1; simp [hl] at this
-  refine ⟨⟨?_, ?_, ?_, ?_, ?_, ?_, ?_⟩, ?_, ?_⟩
-  · simp [S.teardown, h.hook, hl]
-  · intro _; rfl
-  · simp [S.teardown]
-  · intro hc; simp [S.teardown, hce] at hc
-  · intro _ x hx
-    simp only [S.teardown, List.mem_map] at hx
-    obtain ⟨y, _, rfl⟩ := hx
-    exact cancelHandler_not_run _ _
-  · intro x hx u hu
-    simp only [S.teardown, List.mem_map] at hx
-    obtain ⟨y, hy, rfl⟩ := hx
-    refine ⟨?_, rfl⟩
-    rcases cancelHandler_reacting _ _ _ hu with h1 | ⟨_, h2⟩
-    · have := (h.react y hy u h1).2; simp [hl] at this
-    · exact Nat.le_of_lt h2
-  · intro x hx d _ hr
-    simp only [S.teardown, List.mem_map] at hx
-    obtain ⟨y, _, rfl⟩ := hx
-    exact absurd hr (cancelHandler_not_run _ _)
-  · intro x hx u hu
-    simp only [S.teardown, List.mem_map] at hx
-    obtain ⟨y, hy, rfl⟩ := hx
-    rcases cancelHandler_reacting _ _ _ hu with h1 | ⟨_, h2⟩
-    · have := (h.react y hy u h1).2; simp [hl] at this
-    · exact h2
-  · intro x hx
-    simp only [S.teardown, List.mem_map] at hx
-    obtain ⟨y, _, rfl⟩ := hx
-    exact cancelHandler_not_run _ _
+/-! ## `lose` -/
 
-theorem lose_hinv_of_not_lost {s : S} (h : HW s) (hl : s.lost = false) : HInv s.lose := by
-  unfold S.lose
-  simp only [hl, Bool.false_eq_true, ↓reduceIte]
-  obtain ⟨h1, h2, h3⟩ := teardown_hw h hl
-  exact settle_hinv h1 h2 (fun x hx d _ hr => absurd hr (h3 x hx))
-
-theorem lose_hinv {s : S} (h : HInv s) : HInv s.lose := by
-  rcases Bool.eq_false_or_eq_true s.lost with hl | hl
-  · unfold S.lose; simp [hl]; exact h
-  · exact lose_hinv_of_not_lost h.toHW hl
-
-/-- after `lose` nothing is left in `run` -/
-theorem lose_lost (s : S) : s.lose.lost = true := by
+/-- the connection is lost now; the caller supplies the groups of the state just before
+(`closing` already set, the tasks inside `close()` judged against the new instant of loss) -/
+theorem lose_inv_of_not_lost {s : S} {why : Cause} (hl : s.lost = false) (hf : s.fixed = true)
+    (h : HI s.now s.down s.closing false s.closedEvent s.hookRuns s.procTimeout s.handlers)
+    (hc : s.closing = true)
+    (t : TI s.now s.down s.reqTimeout s.tickets)
+    (c : CI s.now s.closing s.closedEvent s.closedAt (some s.now) s.closers)
+    (l : LI s.now true s.stalled (some s.now) (some why) s.abortedAt) : Inv (s.lose why) := by
+  have hce := h.ce_false rfl
+  have hct : s.closedEvent = true → True ∧ ∀ x ∈ s.handlers, x.status = .done := by
+    rw [hce]; intro x; cases x
   unfold S.lose
   split
-  · assumption
-  · simp [S.teardown]
+  · rename_i h1; rw [hl] at h1; cases h1
+  apply settle_inv
+  split
+  · rename_i hd
+    exact { fixed := hf
+            h := ⟨h.ptPos, h.hook, fun _ => hd, fun _ => hc,
+                  fun x => ⟨rfl, (hct x).2⟩, h.ok⟩
+            t := t, c := c, l := l }
+  · rename_i hd
+    have hd : s.down = false := by simpa using hd
+    refine { fixed := hf, h := ?_, t := ?_, c := c, l := l }
+    · refine ⟨h.ptPos, ?_, fun _ => rfl, fun _ => hc, ?_, ?_⟩
+      · have := h.hook; simp [hd] at this; simp [S.teardown, this]
+      · show s.closedEvent = true → _
+        rw [hce]; intro x; cases x
+      · show ∀ x ∈ s.handlers.map (cancelHandler s.now), HOk s.now true s.closing x
+        refine forall_map h.ok ?_
+        intro x hk
+        rw [hd] at hk
+        exact cancelHandler_ok hk
+    · refine ⟨t.pos, ?_⟩
+      show ∀ x ∈ s.tickets.map cancelTicket, TOk s.now true x
+      refine forall_map t.ok ?_
+      intro x hk
+      rw [hd] at hk
+      exact cancelTicket_ok hk
 
-theorem lose_now (s : S) : s.lose.now = s.now := by
-  unfold S.lose; split <;> simp [S.teardown]
-
-theorem lose_closing (s : S) (hc : s.closing = true) : s.lose.closing = true := by
-  unfold S.lose; split <;> simp [S.teardown, hc]
-
-theorem lose_lost_of_lost {s : S} (hl : s.lost = true) : s.lose = s := by
+theorem lose_of_lost {s : S} {why : Cause} (hl : s.lost = true) : s.lose why = s := by
   unfold S.lose; simp [hl]
 
-theorem lose_hw_run {q : S} (h : HW q) : HW q.lose ∧ ∀ x ∈ q.lose.handlers, x.status ≠ .run := by
-  rcases Bool.eq_false_or_eq_true q.lost with hl | hl
-  · rw [lose_lost_of_lost hl]; exact ⟨h, h.noRun hl⟩
-  · have hi := lose_hinv_of_not_lost h hl
-    exact ⟨hi.toHW, hi.noRun (lose_lost _)⟩
+/-- `lose` after the caller has set `closing` -/
+theorem lose_inv {s : S} (i : Inv s) (why : Cause) (hw : why = .graceful → s.stalled = false)
+    (hna : why ≠ .abort) : Inv (S.lose { s with closing := true } why) := by
+  rcases Bool.eq_false_or_eq_true s.lost with hl | hl
+  · rw [lose_of_lost (s := { s with closing := true }) hl]
+    exact { fixed := i.fixed, h := i.h.closing_mono (fun _ => rfl), t := i.t,
+            c := ⟨i.c.ok, fun _ => rfl, i.c.caNone, i.c.caSome⟩, l := i.l, settled := i.settled }
+  · have hla := i.l.la_none hl
+    have l0 := i.l
+    rw [hl] at l0
+    have h0 := i.h
+    rw [hl] at h0
+    exact lose_inv_of_not_lost (s := { s with closing := true }) hl i.fixed
+      (h0.closing_mono (fun _ => rfl)) rfl i.t
+      ⟨forall_imp i.c.ok fun _ hk => hk.la_mono (by rw [hla]; intro t h; cases h),
+       fun _ => rfl, i.c.caNone,
+       fun T hT => by have := (i.c.caSome T hT).1; simp [i.h.ce_false hl] at this⟩
+      (l0.lose hw (Or.inr ⟨hna, i.l.aa_none hl⟩))
 
-/-- the group-1 invariants only read these fields; `closing` only ever appears positively -/
-theorem HW.mono {s s' : S} (h : HW s) (hk : s'.hookRuns = s.hookRuns) (hl : s'.lost = s.lost)
-    (hc : s.closing = true → s'.closing = true) (hla : s'.loopAlive = s.loopAlive)
-    (hce : s'.closedEvent = s.closedEvent) (hh : s'.handlers = s.handlers)
-    (hn : s'.now = s.now) : HW s' := by
-  refine ⟨?_, ?_, ?_, ?_, ?_, ?_, ?_⟩
-  · rw [hk, hl]; exact h.hook
-  · rw [hl]; exact fun x => hc (h.lostClosing x)
-  · rw [hla, hl]; exact h.loop
-  · rw [hce, hl, hh]; exact h.closedThen
-  · rw [hl, hh]; exact h.noRun
-  · rw [hl, hh, hn]; exact h.react
-  · rw [hh, hn]; exact fun x hx d hk hr => ⟨(h.closerH x hx d hk hr).1, hc (h.closerH x hx d hk hr).2⟩
+/-! ## `doAbort`, `transportClose` -/
 
-theorem HInv.mono {s s' : S} (h : HInv s) (hk : s'.hookRuns = s.hookRuns) (hl : s'.lost = s.lost)
-    (hc : s.closing = true → s'.closing = true) (hla : s'.loopAlive = s.loopAlive)
-    (hce : s'.closedEvent = s.closedEvent) (hh : s'.handlers = s.handlers)
-    (hn : s'.now = s.now) : HInv s' :=
-  { toHW := h.toHW.mono hk hl hc hla hce hh hn
-    reactLt := by rw [hh, hn]; exact h.reactLt
-    closerLt := by rw [hh, hn]; exact h.closerLt
-    closedIf := by rw [hl, hh, hce]; exact h.closedIf }
+theorem doAbort_of_lost {s : S} (hl : s.lost = true) : s.doAbort = s := by
+  unfold S.doAbort; simp [hl]
 
-theorem doAbort_hinv {s : S} (h : HInv s) : HInv s.doAbort := by
+/-- an abort now, from a state whose groups the caller supplies (tasks inside `close()` judged
+against the new instant of loss) -/
+theorem doAbort_inv_of_not_lost {s : S} (hl : s.lost = false) (hf : s.fixed = true)
+    (h : HI s.now s.down s.closing false s.closedEvent s.hookRuns s.procTimeout s.handlers)
+    (t : TI s.now s.down s.reqTimeout s.tickets)
+    (c : CI s.now true s.closedEvent s.closedAt (some s.now) s.closers)
+    (l : LI s.now false s.stalled s.lostAt s.lostBy s.abortedAt) : Inv s.doAbort := by
   unfold S.doAbort
-  exact lose_hinv (h.mono rfl rfl (fun _ => rfl) rfl rfl rfl rfl)
-
-theorem transportClose_hinv {s : S} (h : HInv s) : HInv s.transportClose := by
-  unfold S.transportClose
   split
-  · exact h
-  · split
-    · exact h.mono rfl rfl (fun _ => rfl) rfl rfl rfl rfl
-    · exact lose_hinv (h.mono rfl rfl (fun _ => rfl) rfl rfl rfl rfl)
+  · rename_i h1; rw [hl] at h1; cases h1
+  exact lose_inv_of_not_lost (s := { s with abortedAt := some s.now, closing := true }) hl hf
+    (h.closing_mono (fun _ => rfl)) rfl t c (l.lose (by simp) (Or.inl ⟨rfl, rfl⟩))
 
-theorem HInv.closedEvent_false {s : S} (h : HInv s) (hl : s.lost = false) :
-    s.closedEvent = false := by
-  cases hc : s.closedEvent
-  · rfl
-  · have := (h.closedThen hc).1; simp [hl] at this
-
-/-- a new handler that is not blocked in `close()` -/
-theorem addHandler_hinv {s : S} (h : HInv s) (hl : s.lost = false) (x : Handler)
-    (hx : x.status = .done ∨ (x.status = .run ∧ ∀ d, x.kind ≠ .closer d)) :
-    HInv { s with handlers := s.handlers ++ [x] } := by
-  have hce := h.closedEvent_false hl
-  refine { hook := h.hook, lostClosing := h.lostClosing, loop := h.loop, closedThen := ?_,
-           noRun := ?_, react := ?_, closerH := ?_, reactLt := ?_, closerLt := ?_, closedIf := ?_ }
-  · intro hc; simp [hce] at hc
-  · intro hc; simp [hl] at hc
-  · intro y hy u hu
-    simp only [List.mem_append, List.mem_singleton] at hy
-    rcases hy with hy | rfl
-    · exact h.react y hy u hu
-    · rcases hx with hx | ⟨hx, _⟩ <;> simp [hx] at hu
-  · intro y hy d hk hr
-    simp only [List.mem_append, List.mem_singleton] at hy
-    rcases hy with hy | rfl
-    · exact h.closerH y hy d hk hr
-    · rcases hx with hx | ⟨_, hx⟩
-      · simp [hx] at hr
-      · exact absurd hk (hx d)
-  · intro y hy u hu
-    simp only [List.mem_append, List.mem_singleton] at hy
-    rcases hy with hy | rfl
-    · exact h.reactLt y hy u hu
-    · rcases hx with hx | ⟨hx, _⟩ <;> simp [hx] at hu
-  · intro y hy d hk hr
-    simp only [List.mem_append, List.mem_singleton] at hy
-    rcases hy with hy | rfl
-    · exact h.closerLt y hy d hk hr
-    · rcases hx with hx | ⟨_, hx⟩
-      · simp [hx] at hr
-      · exact absurd hk (hx d)
-  · intro hc; simp [hl] at hc
-
-/-- a new handler that has just called `transport.close()` (so `closing` is set) -/
-theorem addCloser_hw {s : S} (h : HInv s) (hl : s.lost = false) (i fa : Nat) :
-    HW { s with handlers := s.handlers ++ [⟨i, .closer (s.now + fa), .run⟩], closing := true } := by
-  have hce := h.closedEvent_false hl
-  refine ⟨h.hook, fun _ => rfl, h.loop, ?_, ?_, ?_, ?_⟩
-  · intro hc; simp [hce] at hc
-  · intro hc; simp [hl] at hc
-  · intro y hy u hu
-    simp only [List.mem_append, List.mem_singleton] at hy
-    rcases hy with hy | rfl
-    · exact h.react y hy u hu
-    · simp at hu
-  · intro y hy d hk hr
-    simp only [List.mem_append, List.mem_singleton] at hy
-    rcases hy with hy | rfl
-    · exact ⟨(h.closerH y hy d hk hr).1, rfl⟩
-    · simp at hk; subst hk; exact ⟨Nat.le_add_right _ _, rfl⟩
-
-theorem addCloser_hinv {s : S} (h : HInv s) (hl : s.lost = false) (i fa : Nat) (hfa : 0 < fa) :
-    HInv { s with handlers := s.handlers ++ [⟨i, .closer (s.now + fa), .run⟩], closing := true } := by
-  refine { toHW := addCloser_hw h hl i fa, reactLt := ?_, closerLt := ?_, closedIf := ?_ }
-  · intro y hy u hu
-    simp only [List.mem_append, List.mem_singleton] at hy
-    rcases hy with hy | rfl
-    · exact h.reactLt y hy u hu
-    · simp at hu
-  · intro y hy d hk hr
-    simp only [List.mem_append, List.mem_singleton] at hy
-    rcases hy with hy | rfl
-    · exact h.closerLt y hy d hk hr
-    · simp at hk; subst hk; show s.now < s.now + fa; omega
-  · intro hc; simp [hl] at hc
+theorem doAbort_inv {s : S} (i : Inv s) : Inv s.doAbort := by
+  rcases Bool.eq_false_or_eq_true s.lost with hl | hl
+  · rw [doAbort_of_lost hl]; exact i
+  · have hla := i.l.la_none hl
+    have l0 := i.l
+    rw [hl] at l0
+    have h0 := i.h
+    rw [hl] at h0
+    exact doAbort_inv_of_not_lost hl i.fixed h0 i.t
+      ⟨forall_imp i.c.ok fun _ hk => hk.la_mono (by rw [hla]; intro t h; cases h),
+       fun _ => rfl, i.c.caNone,
+       fun T hT => by have := (i.c.caSome T hT).1; simp [i.h.ce_false hl] at this⟩ l0
 
 theorem transportClose_cases (s : S) :
     (s.closing = true ∧ s.transportClose = s) ∨
     (s.closing = false ∧ s.stalled = true ∧ s.transportClose = { s with closing := true }) ∨
     (s.closing = false ∧ s.stalled = false ∧
-      s.transportClose = S.lose { s with closing := true }) := by
+      s.transportClose = S.lose { s with closing := true } .graceful) := by
   unfold S.transportClose
   by_cases hc : s.closing = true
   · left; simp [hc]
@@ -349,168 +307,22 @@ theorem transportClose_cases (s : S) :
     · left; simp [hc, hst]
     · right; simp [hc, hst]
 
-theorem startHandler_hinv {s : S} (h : HInv s) (hl : s.lost = false) (hc : s.closing = false)
-    (i : Nat) (k : HKind) : HInv (s.startHandler i k) := by
-  unfold S.startHandler
-  cases k with
-  | quick => exact addHandler_hinv h hl _ (Or.inl rfl)
-  | slow => exact addHandler_hinv h hl _ (Or.inr ⟨rfl, by simp⟩)
-  | stubborn r => exact addHandler_hinv h hl _ (Or.inr ⟨rfl, by simp⟩)
-  | aborter => exact doAbort_hinv (addHandler_hinv h hl _ (Or.inl rfl))
-  | closer fa =>
-    simp only []
-    rcases transportClose_cases
-        { s with handlers := s.handlers ++ [⟨i, .closer (s.now + fa), .run⟩] } with
-      ⟨h1, _⟩ | ⟨_, _, e⟩ | ⟨_, _, e⟩
-    · exact absurd h1 (by simp [hc])
-    · by_cases hfa : fa = 0
-      · subst hfa
-        simp only [BEq.rfl, ↓reduceIte]
-        unfold S.doAbort
-        exact lose_hinv_of_not_lost
-          ((addCloser_hw h hl i 0).mono rfl rfl (fun _ => rfl) rfl rfl rfl rfl) hl
-      · have : (fa == 0) = false := by simp [hfa]
-        simp only [this, Bool.false_eq_true, ↓reduceIte]
-        rw [e]
-        exact addCloser_hinv h hl i fa (by omega)
-    · by_cases hfa : fa = 0
-      · subst hfa
-        simp only [BEq.rfl, ↓reduceIte]
-        unfold S.doAbort
-        exact lose_hinv_of_not_lost
-          ((addCloser_hw h hl i 0).mono rfl rfl (fun _ => rfl) rfl rfl rfl rfl) hl
-      · have : (fa == 0) = false := by simp [hfa]
-        simp only [this, Bool.false_eq_true, ↓reduceIte]
-        rw [e]
-        exact lose_hinv_of_not_lost (addCloser_hw h hl i fa) hl
+theorem Inv.setClosing {s : S} (i : Inv s) : Inv { s with closing := true } :=
+  { fixed := i.fixed, h := i.h.closing_mono (fun _ => rfl), t := i.t,
+    c := ⟨i.c.ok, fun _ => rfl, i.c.caNone, i.c.caSome⟩, l := i.l, settled := i.settled }
 
-theorem finishHandlers_hinv {s : S} (h : HInv s) (hl : s.lost = false) (i : Nat) :
-    HInv { s with handlers := s.handlers.map (finishHandler i) } := by
-  have hce := h.closedEvent_false hl
-  refine { hook := h.hook, lostClosing := h.lostClosing, loop := h.loop, closedThen := ?_,
-           noRun := ?_, react := ?_, closerH := ?_, reactLt := ?_, closerLt := ?_, closedIf := ?_ }
-  · intro hc; simp [hce] at hc
-  · intro hc; simp [hl] at hc
-  · intro y hy u hu
-    simp only [List.mem_map] at hy
-    obtain ⟨x, hx, rfl⟩ := hy
-    rcases finishHandler_status i x with e | ⟨e, _, _⟩
-    · exact h.react x hx u (e ▸ hu)
-    · simp [e] at hu
-  · intro y hy d hk hr
-    simp only [List.mem_map] at hy
-    obtain ⟨x, hx, rfl⟩ := hy
-    rw [finishHandler_kind] at hk
-    rcases finishHandler_status i x with e | ⟨e, _, _⟩
-    · exact h.closerH x hx d hk (e ▸ hr)
-    · simp [e] at hr
-  · intro y hy u hu
-    simp only [List.mem_map] at hy
-    obtain ⟨x, hx, rfl⟩ := hy
-    rcases finishHandler_status i x with e | ⟨e, _, _⟩
-    · exact h.reactLt x hx u (e ▸ hu)
-    · simp [e] at hu
-  · intro y hy d hk hr
-    simp only [List.mem_map] at hy
-    obtain ⟨x, hx, rfl⟩ := hy
-    rw [finishHandler_kind] at hk
-    rcases finishHandler_status i x with e | ⟨e, _, _⟩
-    · exact h.closerLt x hx d hk (e ▸ hr)
-    · simp [e] at hr
-  · intro hc; simp [hl] at hc
+theorem transportClose_inv {s : S} (i : Inv s) : Inv s.transportClose := by
+  rcases transportClose_cases s with ⟨_, e⟩ | ⟨_, _, e⟩ | ⟨_, hst, e⟩ <;> rw [e]
+  · exact i
+  · exact i.setClosing
+  · exact lose_inv i .graceful (fun _ => hst) (by simp)
 
-/-! ### the clock tick -/
+/-! ## the limiter -/
 
-theorem bump_hw {s : S} (h : HInv s) : HW s.bump := by
-  refine ⟨h.hook, h.lostClosing, h.loop, h.closedThen, h.noRun, ?_, ?_⟩
-  · intro x hx u hu
-    exact ⟨Nat.succ_le_of_lt (h.reactLt x hx u hu), (h.react x hx u hu).2⟩
-  · intro x hx d hk hr
-    exact ⟨Nat.succ_le_of_lt (h.closerLt x hx d hk hr), (h.closerH x hx d hk hr).2⟩
+theorem promote_inv0 {s : S} (i : Inv0 s) : Inv0 s.promote :=
+  { fixed := i.fixed, h := i.h, t := ⟨i.t.pos, promoteList_ok i.t.pos i.t.ok⟩, c := i.c, l := i.l }
 
-theorem expire_hw {s : S} (h : HW s) : HW s.expire :=
-  h.mono rfl rfl id rfl rfl rfl rfl
-
-theorem fireClosers_now (s : S) : s.fireClosers.now = s.now := by
-  unfold S.fireClosers
-  simp only []
-  split
-  · rfl
-  · rw [lose_now]
-
-theorem fireClosers_hw {s : S} (h : HW s) : HW s.fireClosers ∧
-    ∀ x ∈ s.fireClosers.handlers, x.status = .run → x.kind ≠ .closer s.now := by
-  unfold S.fireClosers
-  simp only []
-  split
-  · rename_i h0
-    refine ⟨h.mono rfl rfl id rfl rfl rfl rfl, ?_⟩
-    intro x hx hr hk
-    have : x ∈ s.handlers.filter (handlerDue s.now) := by
-      simp [List.mem_filter, hx, handlerDue, hr, hk]
-    have hpos : 0 < (s.handlers.filter (handlerDue s.now)).length := List.length_pos_of_mem this
-    have h00 : s.dueCount = 0 := by simpa using h0
-    unfold S.dueCount at h00
-    omega
-  · have hw : HW { s with closers := s.closers.map (abortCloser s.now),
-                          aborts := s.aborts ++ List.replicate s.dueCount s.now,
-                          closing := true } :=
-      h.mono rfl rfl (fun _ => rfl) rfl rfl rfl rfl
-    obtain ⟨h1, h2⟩ := lose_hw_run hw
-    exact ⟨h1, fun x hx hr => absurd hr (h2 x hx)⟩
-
-theorem tick_hinv {s : S} (h : HInv s) : HInv s.tick := by
-  unfold S.tick
-  have h1 := expire_hw (bump_hw h)
-  obtain ⟨h2, h3⟩ := fireClosers_hw h1
-  have hn : s.bump.expire.fireClosers.now = s.now + 1 := by rw [fireClosers_now]; rfl
-  have hn1 : s.bump.expire.now = s.now + 1 := rfl
-  have hw : HW s.bump.expire.fireClosers.endReactions := by
-    refine ⟨h2.hook, h2.lostClosing, h2.loop, ?_, ?_, ?_, ?_⟩
-    · intro hc
-      refine ⟨(h2.closedThen hc).1, ?_⟩
-      intro x hx
-      simp only [S.endReactions, List.mem_map] at hx
-      obtain ⟨y, hy, rfl⟩ := hx
-      exact finishReaction_done _ _ ((h2.closedThen hc).2 y hy)
-    · intro hl x hx
-      simp only [S.endReactions, List.mem_map] at hx
-      obtain ⟨y, hy, rfl⟩ := hx
-      rw [Ne, finishReaction_run]
-      exact h2.noRun hl y hy
-    · intro x hx u hu
-      simp only [S.endReactions, List.mem_map] at hx
-      obtain ⟨y, hy, rfl⟩ := hx
-      exact h2.react y hy u (finishReaction_reacting _ _ _ hu).1
-    · intro x hx d hk hr
-      simp only [S.endReactions, List.mem_map] at hx
-      obtain ⟨y, hy, rfl⟩ := hx
-      rw [finishReaction_kind] at hk
-      rw [finishReaction_run] at hr
-      exact h2.closerH y hy d hk hr
-  apply settle_hinv hw
-  · intro x hx u hu
-    simp only [S.endReactions, List.mem_map] at hx
-    obtain ⟨y, hy, rfl⟩ := hx
-    obtain ⟨e1, e2⟩ := finishReaction_reacting _ _ _ hu
-    have := (h2.react y hy u e1).1
-    show s.bump.expire.fireClosers.now < u
-    omega
-  · intro x hx d hk hr
-    simp only [S.endReactions, List.mem_map] at hx
-    obtain ⟨y, hy, rfl⟩ := hx
-    rw [finishReaction_kind] at hk
-    rw [finishReaction_run] at hr
-    have h4 := (h2.closerH y hy d hk hr).1
-    have h5 := h3 y hy hr
-    rw [hn1] at h5
-    have : d ≠ s.now + 1 := fun e => h5 (e ▸ hk)
-    show s.bump.expire.fireClosers.now < d
-    omega
-
-theorem advance_hinv (n : Nat) : ∀ {s : S}, HInv s → HInv (s.advance n) := by
-  induction n with
-  | zero => intro s h; exact h
-  | succ n ih => intro s h; exact ih (tick_hinv h)
+theorem promote_inv {s : S} (i : Inv s) : Inv s.promote :=
+  { toInv0 := promote_inv0 i.toInv0, settled := i.settled }
 
 end Aiorpcx.C08
